@@ -118,6 +118,26 @@ def file_events(path: str, tail_head: int, tail_last: int, zone_mod: int, phase:
             served = {k: v for k, v in source.canonical_id_map.items() if k != v}
             ok = served == d
             evs.append({"op": "f_idmap", "keys": [_b(k) for k in d], "vals": [_b(v) for v in d.values()], "served_equal": ok})
+        elif fid == 4:
+            wm = source.windows_mapping
+            w2t = dict(source.windows_to_tzdb_ids)
+            evs.append({"op": "f_windows", "version": _b(wm.version), "tzdb_version": _b(wm.tzdb_version), "windows_version": _b(wm.windows_version),
+                        "zones": [[_b(mz.windows_id), _b(mz.territory), [_b(t) for t in mz.tzdb_ids]] for mz in wm.map_zones],
+                        "w2t_keys": [_b(k) for k in w2t], "w2t_vals": [_b(v) for v in w2t.values()]})
+        elif fid in (6, 7):
+            locs = source.zone_locations if fid == 6 else source.zone_1970_locations
+            known = set(source.canonical_id_map)
+            out = []
+            for loc in locs or []:
+                r = {"lat": round(loc.latitude * 3600), "lon": round(loc.longitude * 3600), "zone_known": loc.zone_id in known}
+                if fid == 6:
+                    r["strs"] = [_b(loc.country_name), _b(loc.country_code), _b(loc.zone_id), _b(loc.comment)]
+                    r["countries"] = []
+                else:
+                    r["strs"] = [_b(loc.zone_id), _b(loc.comment)]
+                    r["countries"] = [x for c in loc.countries for x in (_b(c.name), _b(c.code))]
+                out.append(r)
+            evs.append({"op": "f_locations", "is1970": fid == 7, "locs": out})
         else:
             evs.append({"op": "f_other", "id": fid})
     # provider-level behaviour
